@@ -8,6 +8,8 @@
 -/
 import PygModel.Join
 import PygProofs.Lemmas.JoinLemmas
+import PygProofs.Lemmas.KeyEq
+import PygProofs.Lemmas.JoinCols
 
 namespace Pyg.Props.C02
 open Pyg
@@ -243,6 +245,362 @@ theorem key_none_none : cmp (.tuple [.cell .none]) (.tuple [.cell .none]) = .eq 
 
 theorem key_nan_nan : cmp (.tuple [.cell .nan]) (.tuple [.cell .nan]) = .eq := cmp_self _
 
+/-! ## key equality, characterised against the statement's own wording
+
+`keyEq` (PygProofs/Lemmas/KeyEq.lean) is written from the statement: two scalar keys are equal iff both are
+`None`, both NaN, the same infinity, numbers of one value (int = same-valued float), the same string, the
+same instant — and in no other case.  The model's `cmp` returns 0 on exactly these pairs, component by
+component on key tuples.  So "`cmp · · = .eq`" in every theorem of this file means this relation, neither
+more nor less: a `cmp` that matched 1 with '1' or `None` with NaN would falsify `key_eq_iff`. -/
+
+theorem key_eq_iff (xs ys : List Cell) :
+    cmp (.tuple (xs.map .cell)) (.tuple (ys.map .cell)) = .eq ↔ keysEq xs ys :=
+  cmp_tuple_eq_iff xs ys
+
+theorem key_eq_cell_iff (a b : Cell) :
+    cmp (.tuple [.cell a]) (.tuple [.cell b]) = .eq ↔ keyEq a b = true := by
+  have := key_eq_iff [a] [b]
+  simp only [List.map_cons, List.map_nil] at this
+  rw [this, keysEq]
+  constructor
+  · rintro ⟨_, h⟩; simpa using h 0 (by simp)
+  · intro h
+    refine ⟨rfl, fun i hi => ?_⟩
+    have : i = 0 := by simpa using hi
+    subst this; simpa using h
+
+/-- what is NOT a match: a number and its spelling, `None` and NaN, NaN and an infinity, the two infinities,
+different numbers, `None` and the empty string / zero -/
+theorem key_distinct :
+    cmp (.tuple [.cell (.int 1)]) (.tuple [.cell (.str "1")]) ≠ .eq ∧
+    cmp (.tuple [.cell .none]) (.tuple [.cell .nan]) ≠ .eq ∧
+    cmp (.tuple [.cell .pinf]) (.tuple [.cell .nan]) ≠ .eq ∧
+    cmp (.tuple [.cell .pinf]) (.tuple [.cell .ninf]) ≠ .eq ∧
+    cmp (.tuple [.cell (.int 1)]) (.tuple [.cell (.flt 5)]) ≠ .eq ∧
+    cmp (.tuple [.cell .none]) (.tuple [.cell (.str "")]) ≠ .eq ∧
+    cmp (.tuple [.cell .none]) (.tuple [.cell (.int 0)]) ≠ .eq ∧
+    cmp (.tuple [.cell (.int 1), .cell (.int 2)]) (.tuple [.cell (.int 1)]) ≠ .eq := by
+  refine ⟨?_, ?_, ?_, ?_, ?_, ?_, ?_, ?_⟩ <;> (try rw [key_eq_cell_iff]) <;> decide
+
+/-- whatever the result carries as the key of a row whose key is a tuple of scalar cells is such a tuple,
+`keyEq` to it component by component -/
+theorem key_carried {v : Val} {ys : List Cell} (h : cmp v (.tuple (ys.map .cell)) = .eq) :
+    ∃ xs : List Cell, v = .tuple (xs.map .cell) ∧ keysEq xs ys :=
+  cmp_eq_tuple_cells h
+
+/-! ## join and xor on named key columns, stated through the cells of the two tables
+
+`x.keyCells ln i` are the cells of row `i` of `x` in the columns `ln`; nothing of the model's key extraction,
+sorting, grouping or merging appears in the statement. -/
+
+/-- **join on named columns**: the result rows are (as a multiset) exactly the pairs of a row of `x` and a row
+of `y` whose key cells are `keyEq` column by column; each row carries a key tuple that is `keyEq`, component by
+component, to the key cells of both its rows. -/
+theorem join_named_spec (x y : Table) (ln rn : List String) (mode : Mode)
+    (hlen : ln.length = rn.length) (hnd : ln.Nodup) (hne : ln ≠ [])
+    (hx : ∀ k ∈ ln, k ∈ x.cols) (hy : ∀ k ∈ rn, k ∈ y.cols) :
+    ∃ kp : List (Val × Nat × Nat),
+      join x y (some (ln.map .col)) (some (rn.map .col)) mode
+        = some (.ok (joinTableOf x y ln mode kp)) ∧
+      (kp.map (·.2)).Perm
+        ((allPairs x.nrows y.nrows).filter fun p =>
+          keysEqB (x.keyCells ln p.1) (y.keyCells rn p.2)) ∧
+      ∀ p ∈ kp, ∃ cs : List Cell, p.1 = .tuple (cs.map .cell) ∧
+        keysEq cs (x.keyCells ln p.2.1) ∧ keysEq cs (y.keyCells rn p.2.2) := by
+  obtain ⟨kp, hj, hp, hk⟩ := join_spec x y (ln.map .col) (rn.map .col) mode ln
+    (x.rowKeys ln) (y.rowKeys rn) (by simpa using hlen) (joinColNames_named ln rn hlen) hnd hne
+    (keysOf_named hx) (keysOf_named hy)
+  have hf : ((allPairs x.nrows y.nrows).filter fun p =>
+        cmp (keyAt (x.rowKeys ln) p.1) (keyAt (y.rowKeys rn) p.2) == .eq) =
+      (allPairs x.nrows y.nrows).filter fun p => keysEqB (x.keyCells ln p.1) (y.keyCells rn p.2) := by
+    apply List.filter_congr
+    rintro ⟨i, j⟩ hm
+    obtain ⟨hi, hj⟩ := mem_allPairs.1 hm
+    exact cmp_rowKeys_eq hi hj
+  rw [hf] at hp
+  refine ⟨kp, hj, hp, ?_⟩
+  intro p hpm
+  have hm : p.2 ∈ (allPairs x.nrows y.nrows).filter fun p =>
+      keysEqB (x.keyCells ln p.1) (y.keyCells rn p.2) :=
+    hp.mem_iff.1 (List.mem_map.2 ⟨p, hpm, rfl⟩)
+  obtain ⟨hi, hj⟩ := mem_allPairs.1 (List.mem_filter.1 hm).1
+  obtain ⟨h1, h2⟩ := hk p hpm
+  rw [keyAt_rowKeys hi] at h1
+  rw [keyAt_rowKeys hj] at h2
+  obtain ⟨cs, hcs, he⟩ := cmp_eq_tuple_cells h1
+  refine ⟨cs, hcs, he, ?_⟩
+  rw [hcs] at h2
+  exact (cmp_tuple_eq_iff _ _).1 h2
+
+
+/-- **xor on named columns**: `x.xor(y, ln, rn)` is `x` restricted to (a permutation of) its rows whose key
+cells are `keyEq` to the key cells of no row of `y` -/
+theorem xor_named_spec (x y : Table) (ln rn : List String)
+    (hlen : ln.length = rn.length) (hne : ln ≠ [])
+    (hx : ∀ k ∈ ln, k ∈ x.cols) (hy : ∀ k ∈ rn, k ∈ y.cols) :
+    ∃ ids : List Nat,
+      xor x y (some (ln.map .col)) (some (rn.map .col)) 0 = .ok (x.gatherRows ids) ∧
+      ids.Perm ((List.range x.nrows).filter fun i =>
+        (List.range y.nrows).all fun j => !keysEqB (x.keyCells ln i) (y.keyCells rn j)) := by
+  obtain ⟨ids, h1, h2⟩ := xor_spec x y (ln.map .col) (rn.map .col) (x.rowKeys ln) (y.rowKeys rn)
+    (by simpa using hlen) (by simpa using hne) (keysOf_named hx) (keysOf_named hy)
+  refine ⟨ids, h1, ?_⟩
+  have hf : ((List.range x.nrows).filter fun i => (List.range y.nrows).all fun j =>
+        cmp (keyAt (x.rowKeys ln) i) (keyAt (y.rowKeys rn) j) != .eq) =
+      (List.range x.nrows).filter fun i => (List.range y.nrows).all fun j =>
+        !keysEqB (x.keyCells ln i) (y.keyCells rn j) := by
+    apply List.filter_congr
+    intro i hi
+    rw [Bool.eq_iff_iff, List.all_eq_true, List.all_eq_true]
+    constructor <;> intro h j hj
+    · rw [← cmp_rowKeys_eq (List.mem_range.1 hi) (List.mem_range.1 hj)]; exact h j hj
+    · have := h j hj
+      rw [← cmp_rowKeys_eq (List.mem_range.1 hi) (List.mem_range.1 hj)] at this; exact this
+  rw [← hf]; exact h2
+
+/-- the same for mode 'r': the rows of `y` whose key cells match no row of `x` -/
+theorem xor_named_spec_r (x y : Table) (ln rn : List String)
+    (hlen : ln.length = rn.length) (hne : ln ≠ [])
+    (hx : ∀ k ∈ ln, k ∈ x.cols) (hy : ∀ k ∈ rn, k ∈ y.cols) :
+    ∃ ids : List Nat,
+      xor x y (some (ln.map .col)) (some (rn.map .col)) 1 = .ok (y.gatherRows ids) ∧
+      ids.Perm ((List.range y.nrows).filter fun j =>
+        (List.range x.nrows).all fun i => !keysEqB (x.keyCells ln i) (y.keyCells rn j)) := by
+  obtain ⟨ids, h1, h2⟩ := xor_spec_r x y (ln.map .col) (rn.map .col) (x.rowKeys ln) (y.rowKeys rn)
+    (by simpa using hlen) (by simpa using hne) (keysOf_named hx) (keysOf_named hy)
+  refine ⟨ids, h1, ?_⟩
+  have hf : ((List.range y.nrows).filter fun j => (List.range x.nrows).all fun i =>
+        cmp (keyAt (x.rowKeys ln) i) (keyAt (y.rowKeys rn) j) != .eq) =
+      (List.range y.nrows).filter fun j => (List.range x.nrows).all fun i =>
+        !keysEqB (x.keyCells ln i) (y.keyCells rn j) := by
+    apply List.filter_congr
+    intro j hj
+    rw [Bool.eq_iff_iff, List.all_eq_true, List.all_eq_true]
+    constructor <;> intro h i hi
+    · rw [← cmp_rowKeys_eq (List.mem_range.1 hi) (List.mem_range.1 hj)]; exact h i hi
+    · have := h i hi
+      rw [← cmp_rowKeys_eq (List.mem_range.1 hi) (List.mem_range.1 hj)] at this; exact this
+  rw [← hf]; exact h2
+
+/-! ## which columns the result has, and what they hold
+
+`join_spec` gives the result as `joinTableOf x y cols mode kp`; the theorems below read that table back by
+column NAME (`vcol?` = first column of that name, as `dict` access), so they pin down the column bookkeeping
+(`lkeys / rkeys / jkeys`) against the statement: "each row carries the key, every other column of both sides,
+same-named non-key columns combined as the mode prescribes". -/
+
+/-- the key column `cols[j]` holds component `j` of the key each row carries -/
+theorem join_col_key (x y : Table) (cols : List String) (mode : Mode) (kp : List (Val × Nat × Nat))
+    (hnd : cols.Nodup) {j : Nat} (hj : j < cols.length) :
+    vcol? (joinTableOf x y cols mode kp) cols[j] = some (kp.map fun p => tupleGet j p.1) :=
+  vcol_key x y cols mode kp hnd hj
+
+/-- a column only `x` has (and that is not named like a key column of the result) is in the result and holds,
+in every row, the cell of that row's `x` row -/
+theorem join_col_left (x y : Table) (cols : List String) (mode : Mode) (kp : List (Val × Nat × Nat))
+    {k : String} (hx : k ∈ x.cols) (hy : k ∉ y.cols) (hc : k ∉ cols) :
+    vcol? (joinTableOf x y cols mode kp) k = some (kp.map fun p => .cell (x.jcellAt k p.2.1)) :=
+  vcol_left x y cols mode kp hx hy hc
+
+theorem join_col_right (x y : Table) (cols : List String) (mode : Mode) (kp : List (Val × Nat × Nat))
+    {k : String} (hx : k ∉ x.cols) (hy : k ∈ y.cols) (hc : k ∉ cols) :
+    vcol? (joinTableOf x y cols mode kp) k = some (kp.map fun p => .cell (y.jcellAt k p.2.2)) :=
+  vcol_right x y cols mode kp hx hy hc
+
+/-- a column both tables have is combined by `mode`: the pair / the left / the right cell / `f(l, r)` -/
+theorem join_col_both (x y : Table) (cols : List String) (mode : Mode) (kp : List (Val × Nat × Nat))
+    {k : String} (hx : k ∈ x.cols) (hy : k ∈ y.cols) (hc : k ∉ cols) :
+    vcol? (joinTableOf x y cols mode kp) k =
+      some (kp.map fun p => mode.apply (x.jcellAt k p.2.1) (y.jcellAt k p.2.2)) :=
+  vcol_both x y cols mode kp hx hy hc
+
+/-- the result has no column that is neither a key name nor a column of an operand -/
+theorem join_col_none (x y : Table) (cols : List String) (mode : Mode) (kp : List (Val × Nat × Nat))
+    {k : String} (hx : k ∉ x.cols) (hy : k ∉ y.cols) (hc : k ∉ cols) :
+    vcol? (joinTableOf x y cols mode kp) k = none :=
+  vcol_none x y cols mode kp hx hy hc
+
+/-- **every other column of both sides** — under the side condition that no column of `x` outside its key
+columns `lnames`, and no column of `y` outside its key columns `rnames`, is named like a key column of the
+result.  Then every such column is in the result and holds that side's cell (combined by `mode` when both
+sides have it).  Without the side condition the clause is FALSE of the code: `join_drops_column`. -/
+theorem join_keeps_other_columns (x y : Table) (cols lnames rnames : List String) (mode : Mode)
+    (kp : List (Val × Nat × Nat))
+    (hside : ∀ k ∈ cols, (k ∈ x.cols → k ∈ lnames) ∧ (k ∈ y.cols → k ∈ rnames)) :
+    (∀ k ∈ x.cols, k ∉ lnames →
+      vcol? (joinTableOf x y cols mode kp) k = some (kp.map fun p =>
+        if k ∈ y.cols then mode.apply (x.jcellAt k p.2.1) (y.jcellAt k p.2.2)
+        else .cell (x.jcellAt k p.2.1))) ∧
+    (∀ k ∈ y.cols, k ∉ rnames →
+      vcol? (joinTableOf x y cols mode kp) k = some (kp.map fun p =>
+        if k ∈ x.cols then mode.apply (x.jcellAt k p.2.1) (y.jcellAt k p.2.2)
+        else .cell (y.jcellAt k p.2.2))) := by
+  constructor
+  · intro k hx hl
+    have hc : k ∉ cols := fun h => hl ((hside k h).1 hx)
+    by_cases hy : k ∈ y.cols
+    · simp only [hy, if_true]; exact vcol_both x y cols mode kp hx hy hc
+    · simp only [hy, if_false]; exact vcol_left x y cols mode kp hx hy hc
+  · intro k hy hr
+    have hc : k ∉ cols := fun h => hr ((hside k h).2 hy)
+    by_cases hx : k ∈ x.cols
+    · simp only [hx, if_true]; exact vcol_both x y cols mode kp hx hy hc
+    · simp only [hx, if_false]; exact vcol_right x y cols mode kp hx hy hc
+
+def dropX : Table := [("a", [.int 1, .int 2, .int 3]), ("v", [.int 10, .int 20, .int 30])]
+def dropY : Table := [("k", [.int 1, .int 2, .int 4]), ("a", [.str "p", .str "q", .str "r"]),
+  ("u", [.int 100, .int 200, .int 400])]
+
+/-- **finding C02-K1** (the clause "every other column of both sides" fails): joining `dropX` on its column `a`
+with `dropY` on its column `k`, the right table's NON-key column `a` is not in the result — the result has the
+four columns `a, v, k, u`, and its only column named `a` is the key column (the key of each row), under every
+mode.  The code subtracts the result key names from the columns of BOTH sides
+(`rkeys = other.keys() - cols`, _dictable.py:1112); the model copies it and the correspondence agrees. -/
+theorem join_drops_column (mode : Mode) :
+    "a" ∈ dropY.cols ∧ "a" ∉ ["k"] ∧
+    ∃ kp, join dropX dropY (some [.col "a"]) (some [.col "k"]) mode
+        = some (.ok (joinTableOf dropX dropY ["a"] mode kp)) ∧
+      (joinTableOf dropX dropY ["a"] mode kp).map (·.1) = ["a", "v", "k", "u"] ∧
+      vcol? (joinTableOf dropX dropY ["a"] mode kp) "a" = some (kp.map fun p => tupleGet 0 p.1) := by
+  refine ⟨by decide, by decide, ?_⟩
+  obtain ⟨kp, h, _, _⟩ := join_named_spec dropX dropY ["a"] ["k"] mode rfl (by decide) (by decide)
+    (by decide) (by decide)
+  exact ⟨kp, h, rfl, join_col_key dropX dropY ["a"] mode kp (by decide) (j := 0) (by decide)⟩
+
+/-! ## left join = x*y + x/y, at table level -/
+
+/-- **partition, table level**: `x / y` is `x` restricted to `ids`, `x * y` has one row per entry of `kp`
+(`p.2.1` = the row of `x` it comes from), and every row `i` of `x` is either in `ids` — exactly once, and then
+in no row of the join — or the source of at least one join row — and then not in `ids`; the join rows that
+come from row `i` are exactly its key-equal partners in `y`, each once. -/
+theorem left_join_table (x y : Table) (lc rc : List KeySpec) (mode : Mode)
+    (cols : List String) (lk rk : List Val)
+    (hlen : lc.length = rc.length) (hcols : joinColNames lc rc = .ok cols)
+    (hnd : cols.Nodup) (hne : cols ≠ [])
+    (hlk : x.keysOf lc = .ok lk) (hrk : y.keysOf rc = .ok rk) :
+    ∃ (ids : List Nat) (kp : List (Val × Nat × Nat)),
+      xor x y (some lc) (some rc) 0 = .ok (x.gatherRows ids) ∧
+      join x y (some lc) (some rc) mode = some (.ok (joinTableOf x y cols mode kp)) ∧
+      ids.Nodup ∧
+      ∀ i, i < x.nrows →
+        (i ∈ ids ↔ ∀ p ∈ kp, p.2.1 ≠ i) ∧
+        ((kp.map (·.2)).filter (·.1 == i)).Perm
+          (((List.range y.nrows).filter fun j => cmp (keyAt lk i) (keyAt rk j) == .eq).map
+            fun j => (i, j)) := by
+  have hne' : cols.isEmpty = false := by cases cols <;> simp_all
+  have hlne : lc.isEmpty = false := by
+    cases lc with
+    | nil => simp [joinColNames] at hcols; exact absurd hcols hne
+    | cons _ _ => rfl
+  refine ⟨xorIds 0 lk rk, keyedPairs (joinMatches lk rk), ?_, ?_, xorIds_nodup lk rk, ?_⟩
+  · simp [xor, hlen, hlne, hlk, hrk, bind, Except.bind, pure, Except.pure]
+  · simp only [join, Option.getD_some, hlen, ne_eq, not_true_eq_false, if_false, hcols, hnd,
+      hne', hlk, hrk, Bool.false_eq_true]
+    simp only [bind, Except.bind, pure, Except.pure]
+    rw [joinBody_rows]
+  · intro i hi
+    have hi' : i < lk.length := by rw [keysOf_length hlk]; exact hi
+    obtain ⟨h1, _, h3⟩ := left_join_partition lk rk (keysOf_tuple hlk) i hi'
+    rw [keyedPairs_snd, ← keysOf_length hrk]
+    refine ⟨?_, h3⟩
+    rw [h1]
+    constructor
+    · intro h p hp e
+      apply h
+      refine ⟨p.2.2, ?_⟩
+      have : p.2 ∈ (keyedPairs (joinMatches lk rk)).map (·.2) := List.mem_map.2 ⟨p, hp, rfl⟩
+      rw [keyedPairs_snd] at this
+      rw [← e]; exact this
+    · rintro h ⟨j, hj⟩
+      have : (i, j) ∈ (keyedPairs (joinMatches lk rk)).map (·.2) := by rw [keyedPairs_snd]; exact hj
+      obtain ⟨p, hp, he⟩ := List.mem_map.1 this
+      exact h p hp (by rw [he])
+
+/-! ## the calls the code rejects -/
+
+/-- key lists of different lengths: `ValueError`, for `join` and `xor` -/
+theorem join_length_error (x y : Table) (lc rc : List KeySpec) (mode : Mode)
+    (h : lc.length ≠ rc.length) : join x y (some lc) (some rc) mode = some (.error .value) := by
+  simp [join, h]
+
+theorem xor_length_error (x y : Table) (lc rc : List KeySpec) (mode : Nat)
+    (h : lc.length ≠ rc.length) : xor x y (some lc) (some rc) mode = .error .value := by
+  simp [xor, h]
+
+/-- a formula on both sides of one key position: `ValueError` (the result key column would have no name) -/
+theorem join_both_formula_error (x y : Table) (f g : RowDict → Res Val) (lc rc : List String)
+    (mode : Mode) (hlen : lc.length = rc.length) :
+    join x y (some (lc.map .col ++ [.fn f])) (some (rc.map .col ++ [.fn g])) mode
+      = some (.error .value) := by
+  have h : ∀ (l r : List String), l.length = r.length →
+      joinColNames (l.map .col ++ [.fn f]) (r.map .col ++ [.fn g]) = .error .value := by
+    intro l
+    induction l with
+    | nil => intro r hr; cases r <;> simp_all [joinColNames]
+    | cons a l ih =>
+      intro r hr
+      cases r with
+      | nil => simp at hr
+      | cons b r =>
+        simp only [List.map_cons, List.cons_append, joinColNames, ih r (by simpa using hr), bind,
+          Except.bind]
+  simp [join, hlen, h lc rc hlen]
+
+/-- whatever the key extraction of the left table raises (a missing column: `KeyError`; a formula raising on
+some row, e.g. `TypeError`) is what the call raises; the right table is looked at only afterwards -/
+theorem join_key_error_left (x y : Table) (lc rc : List KeySpec) (mode : Mode) (cols : List String)
+    (e : Err) (hlen : lc.length = rc.length) (hcols : joinColNames lc rc = .ok cols)
+    (hnd : cols.Nodup) (hne : cols ≠ []) (hlk : x.keysOf lc = .error e) :
+    join x y (some lc) (some rc) mode = some (.error e) := by
+  have hne' : cols.isEmpty = false := by cases cols <;> simp_all
+  simp [join, hlen, hcols, hnd, hne', hlk, bind, Except.bind]
+
+theorem join_key_error_right (x y : Table) (lc rc : List KeySpec) (mode : Mode) (cols : List String)
+    (lk : List Val) (e : Err) (hlen : lc.length = rc.length) (hcols : joinColNames lc rc = .ok cols)
+    (hnd : cols.Nodup) (hne : cols ≠ []) (hlk : x.keysOf lc = .ok lk) (hrk : y.keysOf rc = .error e) :
+    join x y (some lc) (some rc) mode = some (.error e) := by
+  have hne' : cols.isEmpty = false := by cases cols <;> simp_all
+  simp [join, hlen, hcols, hnd, hne', hlk, hrk, bind, Except.bind]
+
+/-- a named key column that the left table does not have: `KeyError` -/
+theorem join_missing_column (x y : Table) (ln rn : List String) (mode : Mode)
+    (hlen : ln.length = rn.length) (hnd : ln.Nodup) (k : String) (hk : k ∈ ln) (hx : k ∉ x.cols) :
+    join x y (some (ln.map .col)) (some (rn.map .col)) mode = some (.error .key) := by
+  have hm : ∀ (names : List String), k ∈ names →
+      (names.map KeySpec.col).mapM x.keyCol = .error .key := by
+    intro names
+    induction names with
+    | nil => intro h; simp at h
+    | cons a as ih =>
+      intro h
+      simp only [List.map_cons, List.mapM_cons, bind, Except.bind]
+      cases ha : x.keyCol (.col a) with
+      | error e =>
+        simp only [Table.keyCol] at ha
+        split at ha <;> simp_all
+      | ok v =>
+        have hak : a ≠ k := by
+          rintro rfl
+          simp only [Table.keyCol] at ha
+          split at ha
+          · rename_i xs hxs
+            apply hx
+            simp only [Table.col?, Option.map_eq_some_iff] at hxs
+            obtain ⟨c, hc, _⟩ := hxs
+            have := List.find?_some hc
+            have hm := List.mem_of_find?_eq_some hc
+            simp only [beq_iff_eq] at this
+            exact List.mem_map.2 ⟨c, hm, this⟩
+          · cases ha
+        have : k ∈ as := by
+          rcases List.mem_cons.1 h with rfl | h
+          · exact absurd rfl hak
+          · exact h
+        simp [ih this]
+  have hne : ln.isEmpty = false := by cases ln <;> simp_all
+  simp [join, hlen, joinColNames_named ln rn hlen, hnd, hne, Table.keysOf, hm ln hk, bind,
+    Except.bind]
+
 /-! ## non-vacuity and evaluation tests -/
 
 def exX : Table := [("a", [.int 1, .int 2, .int 2, .none, .nan]), ("v", [.int 10, .int 20, .int 30, .int 40, .int 50])]
@@ -257,6 +615,18 @@ example : joinColNames [.col "a"] [.col "a"] = .ok ["a"] ∧ ["a"].Nodup ∧
       .tuple [.cell .none], .tuple [.cell .nan]] := by
   refine ⟨rfl, by decide, rfl, rfl⟩
 
+/-- the hypotheses of `join_named_spec` / `xor_named_spec` / `join_missing_column` hold on the same pair -/
+example : ["a"].length = ["a"].length ∧ ["a"].Nodup ∧ ["a"] ≠ [] ∧ (∀ k ∈ ["a"], k ∈ exX.cols) ∧
+    (∀ k ∈ ["a"], k ∈ exY.cols) ∧ "zz" ∉ exX.cols := by decide
+
+/-- the hypothesis of `join_key_error_left` holds for a missing column -/
+example : exX.keysOf [.col "zz"] = .error .key := rfl
+
+/-- the side condition of `join_keeps_other_columns` holds for a join on a shared name (even with further
+shared columns) and fails for the pair of `join_drops_column` -/
+example : (∀ k ∈ ["a"], (k ∈ exX.cols → k ∈ ["a"]) ∧ (k ∈ exY.cols → k ∈ ["a"])) ∧
+    ¬ (∀ k ∈ ["a"], (k ∈ dropX.cols → k ∈ ["a"]) ∧ (k ∈ dropY.cols → k ∈ ["k"])) := by decide
+
 /-- the hypothesis of `outer_progress` holds in a state of a non-trivial merge -/
 example : (⟨0, 1, []⟩ : MState Match).l < [((.cell (.int 1) : Val), [0]), (.cell (.int 3), [1])].length ∧
     (⟨0, 1, []⟩ : MState Match).r < [((.cell (.int 0) : Val), [0]), (.cell (.int 3), [1])].length := by
@@ -267,6 +637,14 @@ example : (⟨0, 1, []⟩ : MState Match).l < [((.cell (.int 1) : Val), [0]), (.
       .tuple [.cell .none], .tuple [.cell .nan]]
     [.tuple [.cell (.flt 8)], .tuple [.cell (.int 2)], .tuple [.cell .none], .tuple [.cell .nan]]
   == [(3, 2), (1, 0), (1, 1), (2, 0), (2, 1), (4, 3)]
+-- finding C02-K1 evaluated: the right table's column `a` is not in the result
+#guard (match join dropX dropY (some [.col "a"]) (some [.col "k"]) .pair with
+  | some (.ok r) => r.map (·.1) == ["a", "v", "k", "u"] && (r.map (·.2.length)) == [2, 2, 2, 2]
+  | _ => false)
+-- two key columns with one name: `x.join(y, ['a','a'], ['a','u'])` keeps one column `a`
+#guard (match join exX exY (some [.col "a", .col "a"]) (some [.col "a", .col "a"]) .left with
+  | some (.ok r) => r.map (·.1) == ["a", "v", "u"]
+  | _ => false)
 #guard xorIds 0 [.tuple [.cell (.int 1)], .tuple [.cell (.int 2)], .tuple [.cell .nan]]
     [.tuple [.cell (.flt 8)], .tuple [.cell .nan]] == [0]
 #guard (listbyG [.tuple [.cell (.int 2)], .tuple [.cell .nan], .tuple [.cell (.flt 8)],
